@@ -6,6 +6,8 @@ import HcipyVerif.Model.NearField
 ```
 C04 setup fresnel|angular nx ny dx dy lam z n q s
    -> ok M=[mx,my] cut=y0:y1:x0:x1|none branch=ir|tf slack=… regime=0|1 noevan=0|1 minrad=… nudelta=[…] nuzero=[…]
+C04 set distance|refractive_index|num_oversampling|zero_padding|wavelength v   -> ok   (a setter on the same object)
+C04 info          -> the setup line for the parameters now in force
 C04 tf ix iy      -> ok turns=[…]   (fresnel: sub-sample phases in turns mod 1)
                    | ok rad=[…] evz=… evzold=…   (angular: sub-sample radicands (n/λ)² - ν²; decay distance of
                                                    evanescent components, repaired and unrepaired code)
@@ -28,6 +30,22 @@ def showCut : Option (Nat × Nat × Nat × Nat) → String
   | none => "none"
   | some (a, b, c, d) => s!"{a}:{b}:{c}:{d}"
 
+def info (p : Params) : String :=
+  let nd := [nuDelta p.dx (mx p), nuDelta p.dy (my p)]
+  let nz := [nu p.dx (mx p) 0 0, nu p.dy (my p) 0 0]
+  s!"ok M={showNatList [mx p, my p]} cut={showCut (cutout p)} branch={if impulseBranch p then "ir" else "tf"} " ++
+  s!"slack={showRat (branchSlack p)} regime={showBool (statedRegime p)} noevan={showBool (noEvanescent p)} " ++
+  s!"minrad={showRat (minRadicand p)} nudelta={showRatList nd} nuzero={showRatList nz}"
+
+def parseSetter? (name val : String) : Option Setter :=
+  match name with
+  | "distance" => (parseRat? val).map .distance
+  | "refractive_index" => (parseRat? val).bind fun n => if n ≤ 0 then none else some (.refractiveIndex n)
+  | "num_oversampling" => (parseNat? val).bind fun s => if s = 0 then none else some (.oversampling s)
+  | "zero_padding" => (parseRat? val).bind fun q => if q < 1 then none else some (.zeroPadding q)
+  | "wavelength" => (parseRat? val).bind fun l => if l ≤ 0 then none else some (.wavelength l)
+  | _ => none
+
 def step (st : St) : List String → St × String
   | ["reset"] => ({}, "ok")
   | ["setup", kind, nx, ny, dx, dy, lam, z, n, q, s] =>
@@ -36,13 +54,17 @@ def step (st : St) : List String → St × String
     | some kind, some nx, some ny, some dx, some dy, some lam, some z, some n, some q, some s =>
       if nx = 0 || ny = 0 || dx ≤ 0 || dy ≤ 0 || lam ≤ 0 || n ≤ 0 || q < 1 || s = 0 then (st, "err value") else
       let p : Params := { kind := kind, nx := nx, ny := ny, dx := dx, dy := dy, lam := lam, z := z, n := n, q := q, s := s }
-      let nd := [nuDelta p.dx (mx p), nuDelta p.dy (my p)]
-      let nz := [nu p.dx (mx p) 0 0, nu p.dy (my p) 0 0]
-      ({ p := some p },
-        s!"ok M={showNatList [mx p, my p]} cut={showCut (cutout p)} branch={if impulseBranch p then "ir" else "tf"} " ++
-        s!"slack={showRat (branchSlack p)} regime={showBool (statedRegime p)} noevan={showBool (noEvanescent p)} " ++
-        s!"minrad={showRat (minRadicand p)} nudelta={showRatList nd} nuzero={showRatList nz}")
+      ({ p := some p }, info p)
     | _, _, _, _, _, _, _, _, _, _ => (st, "bad-op")
+  | ["set", name, val] =>
+    match st.p, parseSetter? name val with
+    | some p, some su => ({ p := some (withParam p su) }, "ok")
+    | none, some _ => (st, "err value")
+    | _, none => (st, "bad-op")
+  | ["info"] =>
+    match st.p with
+    | some p => (st, info p)
+    | none => (st, "err value")
   | ["tf", ix, iy] =>
     match st.p, parseNat? ix, parseNat? iy with
     | some p, some ix, some iy =>
